@@ -19,6 +19,7 @@ LEMMAS = {
     'C15': ['vspec::lemma_enc_len_bound', 'vspec::lemma_ser_entry_len'],
     'C16': ['vsum::lemma_wsum_pick', 'vsum::lemma_wsum_insert', 'vsum::lemma_wsum_le', 'vsum::lemma_wsum_eq', 'vsum::lemma_wsum_add', 'vsum::lemma_used_bounds', 'vsum::lemma_used_all_empty',
             'vsum::lemma_payload_split', 'vsum::lemma_used_truncate', 'mem::queues::MemQueues::lemma_used_is_view', 'mem::queue::MemQueue::lemma_size_spec_view'],
+    'C18': ['visol::lemma_entry_frame', 'visol::lemma_entry_local', 'visol::lemma_replay_isolation', 'visol::lemma_open_isolation', 'vdamage::lemma_replay_log_is_fold'],
     'C04': ['vspec::lemma_replay_items_is_append_all', 'multi_record_log::lemma_covers', 'multi_record_log::lemma_wal_after_positions_push'],
 }
 
@@ -184,8 +185,8 @@ PROPS = {
     ),
     'C18': dict(
         level='proof',
-        explain='Whole-map frame postconditions: every MemQueues operation and every API mutator on queue q ensures view == old view.insert(q, .) / .remove(q) / old view; '
+        explain='RESTART HALF (L-C18, spec/visol.rs): for ANY sequence of WAL entries, the state of queue k after the replay is the state after replaying only the entries addressed to k (lemma_replay_isolation: frame + locality of the replay rule, by induction over the entries), and therefore what open computes from the blocks of the WAL files shows for k exactly the replay of the entries addressed to k (lemma_open_isolation, over O-C01-open-replay and lemma_replay_log_is_fold) -- whatever the entries of the other queues are (appends, truncations, deletions, GC position records, undecodable entries). LIVE HALF: Whole-map frame postconditions: every MemQueues operation and every API mutator on queue q ensures view == old view.insert(q, .) / .remove(q) / old view; '
                 'each replay arm touches only the queue named in the entry (replay_entry).',
-        kani_quick=[], kani_thorough=['E-hist'], trusted=[FS], not_decided=['restart/GC/crash halves inherit the limits of C01/C06/C02'],
+        kani_quick=[], kani_thorough=['E-hist'], trusted=[FS], not_decided=['that GC never deletes a file another queue still needs (reference counts: C06) and crash recovery (C02); the replay half itself is proved (L-C18)'],
     ),
 }
